@@ -38,10 +38,28 @@ def fmtOut : Out Int → String
   | .bool b => fmtBool b
   | .panicIndex => "panic:index"
 
-def observe (stepf : σ → Op Int → σ × Out Int) (s : σ) (op : Option (Op Int)) : σ × String :=
-  let (s, r) := match op with
-    | some op => let (s', o) := stepf s op; (s', fmtOut o)
-    | none => (s, "-")
+/-- One op line.  `grow`/`popn` are the bulk forms used by the large cases (`pushn a n`, `addn a n`, `popn k`):
+`n` single `push`/`add` steps with the values `a, a+1, …`, resp. `k` single `pop` steps reporting value, ok, `Len`
+and `Top` after each — through the same `step` function as every other line. -/
+inductive Cmd where
+  | none | one (op : Op Int) | grow (add : Bool) (a : Int) (n : Nat) | popn (k : Nat)
+
+def growN (stepf : σ → Op Int → σ × Out Int) (add : Bool) (s : σ) (a : Int) : Nat → σ
+  | 0 => s
+  | n + 1 => growN stepf add (stepf s (if add then .add a else .push a)).1 (a + 1) n
+
+def popN (stepf : σ → Op Int → σ × Out Int) (s : σ) : Nat → List String → σ × List String
+  | 0, acc => (s, acc.reverse)
+  | k + 1, acc =>
+    let (s', o) := stepf s .pop
+    popN stepf s' k (s!"{fmtOut o},{fmtOut (stepf s' .len).2},{fmtOut (stepf s' .top).2}" :: acc)
+
+def observe (stepf : σ → Op Int → σ × Out Int) (s : σ) (c : Cmd) : σ × String :=
+  let (s, r) := match c with
+    | .none => (s, "-")
+    | .one op => let (s', o) := stepf s op; (s', fmtOut o)
+    | .grow add a n => (growN stepf add s a n, "-")
+    | .popn k => let (s', l) := popN stepf s k []; (s', "[" ++ " ".intercalate l ++ "]")
   let o (op : Op Int) := fmtOut (stepf s op).2
   (s, s!"{r} len={o .len} empty={o .isEmpty} top={o .top} slice={o .slice}")
 
@@ -55,15 +73,21 @@ def parseOp : List String → Option (Op Int)
   | ["each", k] => k.toNat?.map .each
   | _ => none
 
+def parseCmd : List String → Option Cmd
+  | ["pushn", a, n] => do some (.grow false (← a.toInt?) (← n.toNat?))
+  | ["addn", a, n] => do some (.grow true (← a.toInt?) (← n.toNat?))
+  | ["popn", k] => k.toNat?.map .popn
+  | toks => (parseOp toks).map .one
+
 def step (s : S) (toks : List String) (impl : String) : S × String × String :=
-  let go (s : S) (op : Option (Op Int)) : S × String × String :=
-    let (m', mo) := observe Stack.step s.m op
-    let (d', sp) := observe Lifo.step s.d op
+  let go (s : S) (c : Cmd) : S × String × String :=
+    let (m', mo) := observe Stack.step s.m c
+    let (d', sp) := observe Lifo.step s.d c
     ({ m := m', d := d' }, mo, verdict (sp == impl) s!"spec: {sp}")
   match toks with
-  | "reset" :: _ => go {} none
-  | _ => match parseOp toks with
-    | some op => go s (some op)
+  | "reset" :: _ => go {} .none
+  | _ => match parseCmd toks with
+    | some c => go s c
     | none => (s, "bad-op", "bad bad-op")
 
 def stream : Stream := { name := "C10.stack", σ := S, init := {}, step := step }
@@ -88,10 +112,27 @@ def fmtOut : Out → String
 /-- everything `Each` would visit: a stop count no history reaches -/
 def allK : Nat := 1000000
 
-def observe (stepf : σ → Op → σ × Out) (s : σ) (op : Option Op) : σ × String :=
-  let (s, r) := match op with
-    | some op => let (s', o) := stepf s op; (s', fmtOut o)
-    | none => (s, "-")
+/-- One op line of the list stream.  `removen c k` is the bulk form used by the large cases: `k` single `remove`
+steps through cursor register `c` (the same `step` function as every other line), reporting the removed values;
+a refused step ends it with that step's result. -/
+inductive Cmd where
+  | none | one (op : Op) | removen (c k : Nat)
+
+def removeN (stepf : σ → Op → σ × Out) (c : Nat) (s : σ) : Nat → List Int → σ × String
+  | 0, acc => (s, fmtInts acc.reverse)
+  | k + 1, acc =>
+    match stepf s (.remove c) with
+    | (s', .val v) => removeN stepf c s' k (v :: acc)
+    | (s', o) => (s', fmtOut o)
+
+def observe (stepf : σ → Op → σ × Out) (s : σ) (cmd : Cmd) : σ × String :=
+  let (s, r) := match cmd with
+    | .none => (s, "-")
+    | .one op => let (s', o) := stepf s op; (s', fmtOut o)
+    | .removen c k =>
+      match (stepf s (.atEnd c)).2 with
+      | .unset => (s, "unset")
+      | _ => removeN stepf c s k []
   let o (op : Op) := fmtOut (stepf s op).2
   let cur (c : Nat) : String :=
     match (stepf s (.get c)).2 with
@@ -121,29 +162,51 @@ def parseOp : List String → Option Op
   | ["isempty"] => some .isEmpty
   | _ => none
 
+def parseCmd : List String → Option Cmd
+  | ["removen", c, k] => do some (.removen (← regIdx 'c' c) (← k.toNat?))
+  | toks => (parseOp toks).map .one
+
 structure S where
   m : Mlink.St := {}
   a : CursorList.A := {}
 
 def step (s : S) (toks : List String) (impl : String) : S × String × String :=
-  let go (s : S) (op : Option Op) : S × String × String :=
-    let (m', mo) := observe Mlink.step s.m op
-    let (a', sp) := observe CursorList.step s.a op
+  let go (s : S) (cmd : Cmd) : S × String × String :=
+    let (m', mo) := observe Mlink.step s.m cmd
+    let (a', sp) := observe CursorList.step s.a cmd
     ({ m := m', a := a' }, mo, verdict (sp == impl) s!"spec: {sp}")
   match toks with
-  | "reset" :: _ => go {} none
-  | _ => match parseOp toks with
-    | some op => go s (some op)
+  | "reset" :: _ => go {} .none
+  | _ => match parseCmd toks with
+    | some cmd => go s cmd
     | none => (s, "bad-op", "bad bad-op")
 
 def stream : Stream := { name := "C10.mlink", σ := S, init := {}, step := step }
 
 /-! queue -/
 
-def qobserve (stepf : σ → QOp → σ × Out) (s : σ) (op : Option QOp) : σ × String :=
-  let (s, r) := match op with
-    | some op => let (s', o) := stepf s op; (s', fmtOut o)
-    | none => (s, "-")
+/-- One op line of the queue stream.  `grow`/`popn` are the bulk forms used by the large cases (`addn a n`,
+`popn k`): `n` single `add` steps with the values `a, a+1, …`, resp. `k` single `pop` steps reporting value, ok,
+`Len` and `Front` after each — through the same `qstep` function as every other line. -/
+inductive QCmd where
+  | none | one (op : QOp) | grow (a : Int) (n : Nat) | popn (k : Nat)
+
+def qgrowN (stepf : σ → QOp → σ × Out) (s : σ) (a : Int) : Nat → σ
+  | 0 => s
+  | n + 1 => qgrowN stepf (stepf s (.add a)).1 (a + 1) n
+
+def qpopN (stepf : σ → QOp → σ × Out) (s : σ) : Nat → List String → σ × List String
+  | 0, acc => (s, acc.reverse)
+  | k + 1, acc =>
+    let (s', o) := stepf s .pop
+    qpopN stepf s' k (s!"{fmtOut o},{fmtOut (stepf s' .len).2},{fmtOut (stepf s' .front).2}" :: acc)
+
+def qobserve (stepf : σ → QOp → σ × Out) (s : σ) (c : QCmd) : σ × String :=
+  let (s, r) := match c with
+    | .none => (s, "-")
+    | .one op => let (s', o) := stepf s op; (s', fmtOut o)
+    | .grow a n => (qgrowN stepf s a n, "-")
+    | .popn k => let (s', l) := qpopN stepf s k []; (s', "[" ++ " ".intercalate l ++ "]")
   let o (op : QOp) := fmtOut (stepf s op).2
   (s, s!"{r} len={o .len} empty={o .isEmpty} front={o .front} each={o (.each allK)}")
 
@@ -156,20 +219,25 @@ def parseQOp : List String → Option QOp
   | ["each", k] => k.toNat?.map .each
   | _ => none
 
+def parseQCmd : List String → Option QCmd
+  | ["addn", a, n] => do some (.grow (← a.toInt?) (← n.toNat?))
+  | ["popn", k] => k.toNat?.map .popn
+  | toks => (parseQOp toks).map .one
+
 structure QS where
   m : Mlink.Q := {}
   d : List Int := []
 
 def qstepS (s : QS) (toks : List String) (impl : String) : QS × String × String :=
-  let go (s : QS) (op : Option QOp) : QS × String × String :=
-    let (m', mo) := qobserve Mlink.qstep s.m op
-    let (d', sp) := qobserve CursorList.qstep s.d op
+  let go (s : QS) (c : QCmd) : QS × String × String :=
+    let (m', mo) := qobserve Mlink.qstep s.m c
+    let (d', sp) := qobserve CursorList.qstep s.d c
     ({ m := m', d := d' }, mo, verdict (sp == impl) s!"spec: {sp}")
   match toks with
-  | ["reset", "zero"] => go {} none
-  | ["reset", "new"] => go { m := Mlink.Q.new } none
-  | _ => match parseQOp toks with
-    | some op => go s (some op)
+  | ["reset", "zero"] => go {} .none
+  | ["reset", "new"] => go { m := Mlink.Q.new } .none
+  | _ => match parseQCmd toks with
+    | some c => go s c
     | none => (s, "bad-op", "bad bad-op")
 
 def qstream : Stream := { name := "C10.mlinkq", σ := QS, init := {}, step := qstepS }
